@@ -133,7 +133,15 @@ pub fn jobs_for(prop: &str) -> Vec<Job> {
         }
         "C03" => conc_all(),
         "C05" => fault_all(),
-        "C04" => crash_all(),
+        "C04" => {
+            let mut v = crash_all();
+            // crashes while several requests are in flight (scheduled batches with image capture)
+            v.extend(conc_all().into_iter().filter(|j| j.name.contains("sqlite")).map(|mut j| {
+                j.quick = 1500;
+                j
+            }));
+            v
+        }
         "C19" => vec![Job { name: "compat-corpus".into(), kind: JobKind::Compat, quick: 240, thorough: 4000 }],
         "C12" => seq_all(Focus::Urgency, 1),
         "C06" => {
